@@ -84,12 +84,15 @@ def task_finalise(writer, parts):
     return writer.finalise(parts)
 
 
-def real_cluster_check(rounds: int = 3, nwriters: int = 6, timeout: float = 120.0, late_rounds: int = 1) -> dict:
+def real_cluster_check(rounds: int = 3, nwriters: int = 6, timeout: float = 120.0, late_rounds: int = 1,
+                       reuse_rounds: int = 0) -> dict:
     """`rounds` objects, each written by `nwriters` concurrent first writes submitted as
     tasks to a 2-worker in-process cluster (every task unpickles its own copy of the
     writer), then finalised.  The first `late_rounds` writers are created BEFORE the client
     exists (graph built first, cluster started later: no prep_client, the shared variable is
-    never pre-set).  Returns {"status": "ok" | "fail" | "skipped", "detail", "runs"}."""
+    never pre-set).  The last `reuse_rounds` objects are first written to by an EARLIER upload
+    (own MultiPartUpload + writer, two parts written, never finalised, so cleanup_client never
+    ran) and then uploaded again: only the calls of the second upload are judged.  Returns {"status": "ok" | "fail" | "skipped", "detail", "runs"}."""
     try:
         import distributed
     except Exception as e:  # pylint: disable=broad-except
@@ -118,21 +121,30 @@ def real_cluster_check(rounds: int = 3, nwriters: int = 6, timeout: float = 120.
     # _safe_get's 0.1 s time-out is not part of the model (and would make this validation depend on machine
     # load): stretch it for the duration of the check.
     orig_safe_get = S3._safe_get          # pylint: disable=protected-access
-    stretch = [30.0]
+    stretch = [5.0]
     S3._safe_get = lambda v, timeout=0.1: orig_safe_get(v, stretch[0])   # pylint: disable=protected-access
     runs = []
     problems = []
     try:
-        for r in range(len(early) + rounds):
+        for r in range(len(early) + rounds + reuse_rounds):
+            skip_calls = 0
             if r < len(early):
                 # a get on the never-set variable has to run into its time-out (twice, by the initiating task)
                 key, writer = early[r]
                 stretch[0] = 2.0
             else:
                 key = f"real-cluster/object-{r - len(early)}.tif"
-                stretch[0] = 30.0
+                stretch[0] = 5.0
                 with _REG_LOCK:
                     _REG.pop(key, None)
+                if r >= len(early) + rounds:
+                    key = f"real-cluster/reused-object-{r - len(early) - rounds}.tif"
+                    with _REG_LOCK:
+                        _REG.pop(key, None)
+                    old = ClusterMPU("bucket", key).writer({"ContentType": "image/tiff"}, client=client)
+                    for f in [client.submit(task_write, old, p, pure=False) for p in (1, 2)]:
+                        f.result(timeout=timeout)           # the earlier upload is abandoned here
+                    skip_calls = len(fake_s3(key).calls)
                 mpu = ClusterMPU("bucket", key)
                 writer = mpu.writer({"ContentType": "image/tiff"}, client=client)
             futs = [client.submit(task_write, writer, p, pure=False) for p in range(1, nwriters + 1)]
@@ -148,7 +160,7 @@ def real_cluster_check(rounds: int = 3, nwriters: int = 6, timeout: float = 120.
                     fin = client.submit(task_finalise, writer, parts, pure=False).result(timeout=timeout)
                 except Exception as e:  # pylint: disable=broad-except
                     failed.append(f"finalise: {type(e).__name__}: {str(e)[:160]}")
-            calls = list(fake_s3(key).calls)
+            calls = list(fake_s3(key).calls)[skip_calls:]
             creates = [c for c in calls if c[0] == "create"]
             ids = {c[1] for c in creates}
             wrong = [c for c in calls if c[0] == "upload" and c[2] not in ids] + \
